@@ -25,11 +25,11 @@ import (
 func buildPlugin(scratch string) (string, error) {
 	bin := filepath.Join(scratch, "bin", "protoc-gen-verif")
 	cmd := exec.Command("go", "build", "-o", bin, "./checks/c17/protoc-gen-verif")
-	cmd.Dir = evid.Root()
+	cmd.Dir = evid.SourceRoot()
 	env := os.Environ()
 	env = append(env, "GOFLAGS=-mod=mod", "GOPROXY=off", "GOSUMDB=off", "GOTOOLCHAIN=local", "CGO_ENABLED=0")
 	if os.Getenv("GOCACHE") == "" {
-		env = append(env, "GOCACHE="+filepath.Join(evid.Root(), ".gocache"))
+		env = append(env, "GOCACHE="+filepath.Join(evid.SourceRoot(), ".gocache"))
 	}
 	cmd.Env = env
 	if out, err := cmd.CombinedOutput(); err != nil {
